@@ -1,9 +1,79 @@
-from tools import vlib
+import os, re
+from tools import vlib, cli
 from tools.props import scope_common as sc
+
+
+def effective_keys(std_dir, name, seen=()):
+    """the keys a built-in library file supplies, read from the YAML text itself: its own entries that are not `removed: true`,
+    plus what its base supplies and it neither re-defines nor removes (removal is by exact key)"""
+    import yaml
+    path = os.path.join(std_dir, name + ".yml")
+    if name in seen or not os.path.exists(path):
+        return None
+    doc = yaml.safe_load(open(path, encoding="utf-8"))
+    own = doc.get("globals") or {}
+    keys = {k for k, v in own.items() if not (isinstance(v, dict) and v.get("removed") is True)}
+    base = doc.get("base")
+    if base:
+        inherited = effective_keys(std_dir, base, seen + (name,))
+        if inherited is None:
+            return None
+        keys |= {k for k in inherited if k not in own}
+    return keys
+
+
+def library_names(ctx):
+    """under every built-in library, a read of a name the library supplies is never `undefined_variable`, and a name whose
+    every entry the library removes is (the property's `or supplied by the standard library`, decided by the YAML text)"""
+    std_dir = os.path.join(vlib.REPO, "selene-lib", "default_std")
+    d = os.path.join(ctx.workdir, "libnames")
+    os.makedirs(d, exist_ok=True)
+    for lib in sorted(f[:-4] for f in os.listdir(std_dir) if f.endswith(".yml")):
+        if lib.startswith("roblox"):
+            continue          # roblox_base is not selectable by name; `roblox` is generated from the network
+        keys = effective_keys(std_dir, lib)
+        if keys is None:
+            continue
+        import yaml
+        all_roots = set()
+        n = lib
+        while n:
+            doc = yaml.safe_load(open(os.path.join(std_dir, n + ".yml"), encoding="utf-8"))
+            all_roots |= {k.split(".")[0] for k in (doc.get("globals") or {})}
+            n = doc.get("base")
+        supplied = {k.split(".")[0] for k in keys}
+        ident = re.compile(r"^[A-Za-z_][A-Za-z0-9_]*$")
+        names = sorted(r for r in all_roots if ident.match(r))
+        with open(os.path.join(d, f"{lib}.lua"), "w") as fh:
+            fh.write("".join(f"print({r})\n" for r in names))
+        with open(os.path.join(d, f"cfg_{lib}.toml"), "w") as fh:
+            fh.write(f'std = "{lib}"\n')
+        rc, out, err = cli.run_selene(["--config", f"cfg_{lib}.toml", "--display-style", "json2", "--num-threads", "1", f"{lib}.lua"], d)
+        diags, summary, bad = cli.parse_json_lines(out)
+        ctx.evaluations += 1
+        if summary is None:
+            ctx.violation(f"implementation violates the specification: [C01] the command-line tool fails on a file that reads every root name of the built-in library {lib}",
+                          f"directory: {d}\nfile: {lib}.lua\nstderr (head): {err[:600]}")
+            continue
+        reported = {names[x["primary_label"]["span"]["start_line"]] for x in diags if x.get("code") == "undefined_variable" and x["primary_label"]["span"]["start_line"] < len(names)}
+        wrong = sorted(r for r in names if (r in supplied) == (r in reported))
+        if wrong:
+            r = wrong[0]
+            ctx.violation(f"implementation violates the specification: [C01] under std = \"{lib}\" the name `{r}` is {'reported as undefined although the library supplies it' if r in supplied else 'not reported although every entry for it is removed'}"
+                          + (f" (and {len(wrong) - 1} more: {' '.join(wrong[1:6])})" if len(wrong) > 1 else ""),
+                          f"directory: {d}\nconfig: cfg_{lib}.toml\nfile: {lib}.lua (line {names.index(r) + 1}: print({r}))\nsupplied by the YAML text of {lib}.yml and its base chain: {r in supplied}\nreported undefined_variable: {r in reported}")
+        else:
+            ctx.nontrivial.add(f"library-names-{lib}")
 
 
 def check(ctx):
     ctx.assumptions = list(sc.ASSUME)
-    return vlib.standard_check(ctx, ["Selene.Props.C01"], sc.body_for("[C01]", ["local-read", "global-read", "hoisted-global", "vararg", "undefined-reported"]),
-                               trusted=vlib.BASE_TRUST + ["harness/src/astdump.rs (AST exchange format) and lean/Selene/Lua/Read.lean"],
-                               rule=sc.RULE_BASE + "; non-trivial = the program has a read that resolves to a local, a read of a global, a hoisted global or a vararg")
+    inner = sc.body_for("[C01]", ["local-read", "global-read", "hoisted-global", "vararg", "undefined-reported"])
+
+    def body(ctx):
+        inner(ctx)
+        library_names(ctx)
+    return vlib.standard_check(ctx, ["Selene.Props.C01"], body,
+                               trusted=vlib.BASE_TRUST + ["harness/src/astdump.rs (AST exchange format) and lean/Selene/Lua/Read.lean", "PyYAML (reads default_std/*.yml for the library-names stage)"],
+                               rule=sc.RULE_BASE + "; every root name of every built-in library file read under that library through the command-line tool (supplied names silent, wholly removed names reported; expectation from the YAML text); non-trivial = the program has a read that resolves to a local, a read of a global, a hoisted global or a vararg",
+                               need_selene=True)
